@@ -56,13 +56,6 @@ theorem blkRects_ne_nil (cbw cbh : Nat) (hw : 0 < cbw) (hh : 0 < cbh) (b : BandR
   rw [he] at this
   exact absurd this (by simp)
 
-/-- NAMED HYPOTHESIS (unproved): an all-zero block — T1 `Encode` returns the bytes of an MQ coder that was only
-    flushed; the decoder runs one cleanup pass over them (pass count 1 from the header, bit-plane from
-    estimateMaxBitplane) and must find no significant coefficient -/
-def ZeroBlockHyp : Prop :=
-  ∀ (w h orient : Nat) (cs : List Int), cs.length = w * h → findMaxBitplane (padBlock w h cs) = none →
-    ∀ bytes, encodeBlock w h orient 0 cs 1 = .ok bytes → decodeBlock w h orient 0 1 0 bytes = .ok cs
-
 /-- NAMED HYPOTHESIS (unproved): the T1 output of a code-block fits decodePacket's `maxSegmentLength = 65535`
     (no bound on the MQ output length is proved; 4096 samples × 31 bit-planes make it plausible) -/
 def SegmentLenHyp : Prop :=
@@ -78,7 +71,7 @@ theorem cutBlock_bound (f : Plane) (k : BlkRect) (hb : ∀ x y, (f x y).natAbs <
   exact hb _ _
 
 theorem ppacketOk (c : TCfg) (r : Nat) (f : Plane) (hw : 0 < c.cbw) (hh : 0 < c.cbh) (hl : liveBands c r ≠ [])
-    (hnb : ∀ r b, c.nb r b < 32) (hb : ∀ x y, (f x y).natAbs < 2 ^ 25) (hz : ZeroBlockHyp) (hs : SegmentLenHyp) :
+    (hnb : ∀ r b, c.nb r b < 32) (hb : ∀ x y, (f x y).natAbs < 2 ^ 25) (hs : SegmentLenHyp) :
     PPacketOk (ppacketOf c r f) := by
   constructor
   · cases hlb : liveBands c r with
@@ -108,7 +101,6 @@ theorem ppacketOk (c : TCfg) (r : Nat) (f : Plane) (hw : 0 < c.cbw) (hh : 0 < c.
       have hlen := cutBlock_length f k
       have hbd := cutBlock_bound f k hb
       exact { len := by simpa using hlen, bnd := by simpa using hbd, nb32 := hnb r b.band,
-              zero := fun h0 bytes he => hz _ _ _ _ (by simpa using hlen) h0 bytes he,
               bytes := fun np bs he => hs _ _ _ _ np bs (by simpa using hlen) (by simpa using hbd) he }
 
 theorem packetSeq_live (c : TCfg) (nC prog : Nat) : ∀ q ∈ packetSeq c nC prog, liveBands c q.1 ≠ [] := by
@@ -134,11 +126,11 @@ theorem packetSeq_live (c : TCfg) (nC prog : Nat) : ∀ q ∈ packetSeq c nC pro
     exact key r (List.mem_filter.mp hr).2
 
 /-- T2 + T1 + CUT/PASTE FOR A TILE: the tile-component planes the encoder cuts its code-blocks from are the planes the
-    decoder fills — every sample of every component.  Named hypotheses: `ZeroBlockHyp`, `SegmentLenHyp`;
+    decoder fills — every sample of every component.  Named hypothesis: `SegmentLenHyp`;
     assumptions on the configuration: positive code-block size, `bandNumbps < 32`, `|coefficient| < 2^25`. -/
 theorem tile_planes_roundtrip (c : TCfg) (nC prog : Nat) (planes : Nat → Plane) (tail : List Nat)
     (hw : 0 < c.cbw) (hh : 0 < c.cbh) (hnb : ∀ r b, c.nb r b < 32)
-    (hb : ∀ k x y, (planes k x y).natAbs < 2 ^ 25) (hz : ZeroBlockHyp) (hs : SegmentLenHyp) :
+    (hb : ∀ k x y, (planes k x y).natAbs < 2 ^ 25) (hs : SegmentLenHyp) :
     ∃ bytes out, encodeTileBody (tilePackets c nC prog planes) = some bytes ∧
       decodeTileBody (tileGeo c nC prog) (bytes ++ tail) = some out ∧
       ∀ k x y, k < nC → x < c.W → y < c.H → pasteTile c nC prog out k x y = planes k x y := by
@@ -146,7 +138,7 @@ theorem tile_planes_roundtrip (c : TCfg) (nC prog : Nat) (planes : Nat → Plane
     intro p hp
     unfold tilePackets at hp
     obtain ⟨q, hq, rfl⟩ := List.mem_map.mp hp
-    exact ppacketOk c q.1 (planes q.2) hw hh (packetSeq_live c nC prog q hq) hnb (hb q.2) hz hs
+    exact ppacketOk c q.1 (planes q.2) hw hh (packetSeq_live c nC prog q hq) hnb (hb q.2) hs
   obtain ⟨bytes, henc, hdec⟩ := tile_blocks_roundtrip (tilePackets c nC prog planes) tail hok
   rw [tileGeo_eq] at hdec
   refine ⟨bytes, _, henc, hdec, ?_⟩
